@@ -338,8 +338,11 @@ package flags
 //@   ensures[C01,C04] !ca && argument != nil ==> isTyped(err, ErrNoArgumentForBool) && ncalls(Option.Set) == n0 && same(s.args, old(s.args)) && s.arg == old(s.arg)
 //@   ensures[C01] !ca && argument == nil ==> ncalls(Option.Set) == n0 + 1 && callarg(Option.Set, n0, 0) == option && callarg(Option.Set, n0, 1) == nil && same(s.args, old(s.args)) && s.arg == old(s.arg)
 //@   ensures[C01,C02] ca && argument != nil ==> same(s.args, old(s.args)) && s.arg == old(s.arg)
-//@   ensures[C01,C02] ca && argument != nil && !unquoteFails(option, *argument) ==> oneSet(n0, option, setValue(option, *argument))
-//@   ensures[C01,C02,C04] ca && argument != nil && unquoteFails(option, *argument) ==> ncalls(Option.Set) == n0 && isTyped(err, ErrMarshal)
+// (C02: a custom validator decides for EVERY spelling - attached values are validated like separate ones)
+//@   let vrej := option.isValueValidator() != nil && argument != nil && option.isValueValidator().IsValidValue(*argument) != nil
+//@   ensures[C02] ca && argument != nil && vrej ==> isTyped(err, ErrExpectedArgument) && ncalls(Option.Set) == n0
+//@   ensures[C01,C02] ca && argument != nil && !vrej && !unquoteFails(option, *argument) ==> oneSet(n0, option, setValue(option, *argument))
+//@   ensures[C01,C02,C04] ca && argument != nil && !vrej && unquoteFails(option, *argument) ==> ncalls(Option.Set) == n0 && isTyped(err, ErrMarshal)
 //@   ensures[C01,C02] ca && takes ==> same(s.args, old(s.args)[1:]) && s.arg == tok
 //@   ensures[C02,C04] ca && takes && (option.isValidValue(tok) != nil || (p.Options&PassDoubleDash != 0 && tok == "--")) ==> isTyped(err, ErrExpectedArgument) && ncalls(Option.Set) == n0
 //@   ensures[C01,C02] ca && takes && option.isValidValue(tok) == nil && !(p.Options&PassDoubleDash != 0 && tok == "--") && !unquoteFails(option, tok) ==> oneSet(n0, option, setValue(option, tok))
